@@ -107,7 +107,7 @@ PROPS = {
         select=lambda c: c.qual.split('.')[0] in ('category', 'tokens', 'reader', 'tex', '__init__') or
         c.qual.startswith('utils.Buffer.') or c.qual.startswith('utils.CharToLineOffset') or c.qual.startswith('utils.Token.') or
         c.qual in ('data.TexExpr.__init__', 'data.TexExpr.append', 'data.TexNode.__init__'),
-        level='proof',
+        level='other',
         bounded=['parse.py', 'c06_growth.py'],
         lemmas=['the only exception types that can leave TexSoup() are those declared in the `raises` clauses of the closure '
                 '(EOFError from unclosed_env_handler, TypeError from read_arg, AssertionError from the two asserts of read_expr); '
@@ -116,7 +116,9 @@ PROPS = {
                 'mutually recursive readers'],
         trusted_base=['Buffer representation map (C20)', 'TexArgs contracts used by the readers (verified under C18)',
                       'constructor of TexText is summarised (contracts/data_c.py ctor_TexText)'],
-        assumptions=['interpreter recursion limit and memory are not modelled (C06 states nesting depth <= 40)',
+        assumptions=['open finding D25: in tolerant mode one family of nested inputs needs exponentially many steps (termination '
+                     'is proved, "never hangs" at depth 40 is not true in practice); this is why the level is "other"',
+                     'interpreter recursion limit and memory are not modelled (C06 states nesting depth <= 40)',
                      'wall-clock hangs are replaced by termination measures'],
         explanation='exception-freedom and termination of every function reachable from TexSoup() for all inputs, both '
                     'tolerance modes; the parse sweep is the bounded cross-check'),
